@@ -9,6 +9,7 @@ CONSTANTS MAX_RETRIES = 3
           TrustMode = "mutual"
           WithBad = TRUE
           AlgoMode = "plain"
+INVARIANT TickManyOK
 INVARIANT Agreement
 INVARIANT AtMostOnce
 INVARIANT HalvesDisjoint
